@@ -91,7 +91,9 @@ def failing_prelude():
                  lambda: Glycan("Glc").count("Man((", match_nodes=True), lambda: Glycan("GlcS6").count_protonation(True),
                  lambda: Glycan("Glc(a1-9)Glc").get_smiles(), lambda: Glycan("Glc7S", full=False).summary(),
                  lambda: convert("Glc#", returning=True), lambda: convert(glycan_file="/nonexistent/x.txt", returning=True),
-                 lambda: Glycan("Glc", root_orientation="x").get_smiles(), lambda: Glycan("Glc", start="q").get_smiles()):
+                 lambda: Glycan("Glc", root_orientation="x").get_smiles(), lambda: Glycan("Glc", start="q").get_smiles(),
+                 lambda: Glycan("Xyl6Me").get_smiles(), lambda: Glycan("Pau3Me7Ac a").get_smiles(), lambda: Glycan("Glc9Ac8S", full=False).get_smiles(),
+                 lambda: Glycan("ManHep-ol").get_smiles(), lambda: Glycan("L-Fuc4e").get_smiles()):
         try:
             call()
         except BaseException:
